@@ -686,7 +686,7 @@ pub fn stress_shapes(thorough: bool) -> Vec<(String, Vec<u8>)> {
         v.push((name.into(), b));
     }
     // table amplification: cels at a high layer index in many frames, layers declared or not
-    for (declare, nl, nf) in [(false, 65535usize, 64usize), (true, 2000, 400), (true, if thorough { 8000 } else { 5500 }, if thorough { 8000 } else { 5500 })] {
+    for (declare, nl, nf) in [(false, 65535usize, 64usize), (true, 2000, 400), (true, if thorough { 9000 } else { 6500 }, if thorough { 9000 } else { 6500 })] {
         let mut b = header_bytes(nf as u16, 1, 1, 32);
         for f in 0..nf {
             let mut chunks = vec![];
